@@ -1914,6 +1914,7 @@ func opcodeHash256(op *ParsedOpcode, t *thread) error {
 // This opcode does not change the contents of the data stack.
 func opcodeCodeSeparator(op *ParsedOpcode, t *thread) error {
 	t.lastCodeSep = t.scriptOff
+	t.codeSepSeen = true
 	return nil
 }
 
